@@ -12,7 +12,18 @@ macro_rules! mono {
         pub const MONO_TYPES: &[&str] = &[$($name),*];
         pub fn mono_enc(name: &str, s: &Sx) -> Option<desert::Result<Vec<u8>>> {
             Some(match name {
-                $($name => desert::serialize_to_byte_vec(&<$t as Sxv>::from_sx(s)),)*
+                $($name => {
+                    let v = <$t as Sxv>::from_sx(s);
+                    let bytes = desert::serialize_to_byte_vec(&v);
+                    // the size calculator must count exactly the bytes written
+                    let size = desert::serialize(&v, desert::SizeCalculator::new()).map(|c| c.size());
+                    match (&bytes, size) {
+                        (Ok(b), Ok(n)) if b.len() != n => panic!("size calculator reports {} bytes, {} were written", n, b.len()),
+                        (Ok(_), Err(e)) => panic!("size calculator fails ({e:?}) where the value encodes"),
+                        _ => {}
+                    }
+                    bytes
+                })*
                 _ => return slice_enc(name, s),
             })
         }
@@ -60,6 +71,13 @@ mono! {
     "(vec i128)" => Vec<i128>,
     "(ll i64)" => LinkedList<i64>,
     "(arr 3 i64)" => [i64; 3],
+    "(vec (arr 64 u16))" => Vec<[u16; 64]>,
+    "(vec (arr 100 i32))" => Vec<[i32; 100]>,
+    "(vec (arr 127 bool))" => Vec<[bool; 127]>,
+    "(vec (arr 63 u16))" => Vec<[u16; 63]>,
+    "(ll (arr 64 i8))" => LinkedList<[i8; 64]>,
+    "(opt (arr 64 u16))" => Option<[u16; 64]>,
+    "(tup u8 (arr 100 i32))" => (u8, [i32; 100]),
     "(ll u8)" => LinkedList<u8>,
     "(ll i8)" => LinkedList<i8>,
     "(box (arr 4 u8))" => Box<[u8; 4]>,
